@@ -163,6 +163,32 @@ type clientStreamWrapper struct {
 	grpc.ClientStream
 }
 
+// The finalizer set in NewStream cancels the stream once the wrapper is no
+// longer reachable. An operation in flight must therefore keep the wrapper
+// alive: a caller blocked in its last use of the stream (e.g. RecvMsg) holds no
+// other reference to it, and a garbage collection at that moment would cancel
+// the call under it.
+
+func (w *clientStreamWrapper) Header() (metadata.MD, error) {
+	defer runtime.KeepAlive(w)
+	return w.ClientStream.Header()
+}
+
+func (w *clientStreamWrapper) CloseSend() error {
+	defer runtime.KeepAlive(w)
+	return w.ClientStream.CloseSend()
+}
+
+func (w *clientStreamWrapper) SendMsg(m interface{}) error {
+	defer runtime.KeepAlive(w)
+	return w.ClientStream.SendMsg(m)
+}
+
+func (w *clientStreamWrapper) RecvMsg(m interface{}) error {
+	defer runtime.KeepAlive(w)
+	return w.ClientStream.RecvMsg(m)
+}
+
 func getPeer(baseUrl *url.URL, tls *tls.ConnectionState) *peer.Peer {
 	hostPort := baseUrl.Host
 	if !strings.Contains(hostPort, ":") {
